@@ -184,7 +184,9 @@ def run_program(ops: list[str]):
                 st.compactify()
                 ref.compactify()
             elif op == "S":
-                st["X"] = st["X"] + 1.0
+                buf = st["X"] + 1.0
+                st["X"] = buf
+                buf += 1000.0          # the caller's own array: the state has its own copy of what was assigned
                 st["age"] = st.age + 0.5
                 for p in ref.order:
                     ref.rec[p]["X"] += 1.0
